@@ -56,22 +56,30 @@ namespace cnl {
     private:
         using result_type = decltype(std::declval<Lhs>() / std::declval<Rhs>());
 
-        template<typename LhsParam, typename RhsParam>
-        [[nodiscard]] constexpr auto step2(LhsParam const& lhs, RhsParam const& rhs) const
-                -> result_type
-        {
-            return (lhs < 0) ? -((_impl::abs(lhs) + (rhs - (lhs < 0 ? 1 : 0)) / 2) / rhs)
-                             : +((_impl::abs(lhs) + (rhs - (lhs < 0 ? 1 : 0)) / 2) / rhs);
-        }
-        [[nodiscard]] constexpr auto step1(Lhs const& lhs, Rhs const& rhs) const -> result_type
-        {
-            return (rhs < 0) ? step2(-lhs, -rhs) : step2(lhs, rhs);
-        }
-
     public:
         [[nodiscard]] constexpr auto operator()(Lhs const& lhs, Rhs const& rhs) const -> result_type
         {
-            return step1(lhs, rhs);
+            // adjust the truncated quotient using the remainder
+            // rather than negating or biasing the operands, which can overflow
+            auto const quotient = lhs / rhs;
+            auto const remainder = lhs % rhs;
+            if (remainder == 0) {
+                return quotient;
+            }
+            if ((remainder < 0) == (rhs < 0)) {
+                // positive quotient; round up iff |remainder| >= |rhs| - |remainder|
+                auto const rest = rhs - remainder;
+                if ((rhs < 0) ? (remainder <= rest) : (remainder >= rest)) {
+                    return quotient + 1;
+                }
+                return quotient;
+            }
+            // negative quotient; round down iff |remainder| > |rhs| - |remainder|
+            auto const rest = rhs + remainder;
+            if ((rhs < 0) ? (rest + remainder > 0) : (rest + remainder < 0)) {
+                return quotient - 1;
+            }
+            return quotient;
         }
     };
 
